@@ -18,7 +18,7 @@ ASSUMPTIONS = ["CrossHair models Python floats as reals and ints as mathematical
 STUBS = ["loguru logger in sleap_nn.train / config modules -> no-op (CrossHair's datetime patches break loguru's record formatting)"]
 OUTSIDE = ["the YAML text save/load round trip (symbolic values are realised at the serialiser: only a concrete spot check is made)", "augmentation lists longer than 3", "dict-valued augmentation arguments"]
 REQUIRED_WITNESSES = []
-BUDGET_S = {"quick": 900, "thorough": 3600}
+BUDGET_S = {"quick": 1800, "thorough": 3600}
 
 CONTRACTS = ["geometric_names_all_enabled", "intensity_names_all_enabled", "data_args_reach_their_place_a", "data_args_reach_their_place_b", "trainer_args_reach_their_place_a",
              "trainer_args_reach_their_place_b", "trainer_args_reach_their_place_c", "trainer_args_reach_their_place_d", "backbone_dict_reaches_its_place_a", "normalisation_is_idempotent",
@@ -31,7 +31,7 @@ def bounds(tier):
 
 
 def configs(tier, seed):
-    out = [dict(kind="contract", name=n, timeout=600 if tier == "quick" else 1500) for n in CONTRACTS]
+    out = [dict(kind="contract", name=n, timeout=1200 if tier == "quick" else 1500) for n in CONTRACTS]
     out.append(dict(kind="concrete"))
     out.append(dict(kind="validators"))
     return out
@@ -64,7 +64,7 @@ def run_config(cfg):
     from props import c20_contracts as C
     fn = getattr(C, cfg["name"])
     C.warm()
-    r = chrunner.run_contract(fn, per_condition_timeout=cfg["timeout"], per_path_timeout=60)
+    r = chrunner.run_contract(fn, per_condition_timeout=cfg["timeout"], per_path_timeout=240)  # generous: one slow path under load turned a 70 s contract into CANNOT_CONFIRM once
     rep.paths = 1
     rep.nontrivial_paths = 1
     name = f"CH-{cfg['name']}"
